@@ -787,8 +787,13 @@ class VM:
             ):
                 raise JSTypeError("Right-hand side of instanceof is not callable")
 
-            # Check prototype chain
-            if not isinstance(obj, JSObject):
+            # Check prototype chain. A function is an object too: its chain
+            # starts at Function.prototype
+            if isinstance(obj, JSFunction):
+                start = self._function_prototype()
+            else:
+                start = getattr(obj, "_prototype", None)
+            if not isinstance(obj, (JSObject, JSFunction)):
                 self.stack.append(False)
             else:
                 # Get constructor's prototype property
@@ -808,7 +813,7 @@ class VM:
 
                 # Walk the prototype chain
                 result = False
-                current = getattr(obj, "_prototype", None)
+                current = start
                 while current is not None:
                     if current is proto:
                         result = True
@@ -2612,6 +2617,14 @@ class VM:
                 )
             else:
                 obj._properties[key_str] = value
+
+    def _function_prototype(self) -> Optional[JSObject]:
+        """Function.prototype of this realm, the prototype of every function."""
+        constructor = self.globals.get("Function")
+        proto = (
+            constructor.get("prototype") if isinstance(constructor, JSObject) else None
+        )
+        return proto if isinstance(proto, JSObject) else None
 
     def _delete_property(self, obj: JSValue, key: JSValue) -> bool:
         """Delete property from object."""
